@@ -13,6 +13,8 @@ package zzverif
 import (
 	"encoding/json"
 	"fmt"
+	"net/http"
+	"net/http/httptest"
 	"os"
 	"sort"
 	"strings"
@@ -179,9 +181,37 @@ func ParseHTML(s string) *html.Node {
 	return doc
 }
 
+// ServeHTML makes body available over HTTP and returns its URL and a function
+// that releases the server. Natively this is a loopback httptest server; under
+// the engine the HTTP client is a stub that returns body for that URL.
+func ServeHTML(body string) (string, func()) {
+	srv := httptest.NewServer(http.HandlerFunc(func(w http.ResponseWriter, r *http.Request) {
+		w.Header().Set("Content-Type", "text/html; charset=utf-8")
+		w.Write([]byte(body))
+	}))
+	return srv.URL + "/zzpage", srv.Close
+}
+
+// TempFile writes body to a temporary file (engine: a stub file system).
+func TempFile(body string) (string, func()) {
+	f, err := os.CreateTemp("", "zzverif*.html")
+	if err != nil {
+		panic(err)
+	}
+	f.WriteString(body)
+	f.Close()
+	return f.Name(), func() { os.Remove(f.Name()) }
+}
+
 // MapOrderAll switches exploration of all map iteration orders on or off
 // (engine only; natively the Go runtime randomises).
 func MapOrderAll(on bool) {}
+
+// MapOrder selects how the engine iterates over Go maps from now on: 0 in
+// insertion order, 1 reversed, 3 rotated by one (fixed alternative schedules,
+// no fork), 2 every permutation (case split; maps of at most 5 entries).
+// Natively a no-op: the Go runtime randomises.
+func MapOrder(mode int) {}
 
 // Freeze marks everything reachable from the arguments as caller-owned: any
 // later write into it is reported by the engine's write-set monitor.
